@@ -78,4 +78,5 @@ Definition strength_ok (kd : keydata) : Prop :=
   /\ (is_url kd url_rsa_pkcs1_pub -> rsa_strong fs)
   /\ (is_url kd url_rsa_pss_pub -> rsa_strong fs)
   /\ (is_url kd url_ecdsa_pub -> ecdsa_params_strong (get_sub 2 fs))
-  /\ (is_url kd url_ecdsa_priv -> ecdsa_params_strong (get_sub 2 (get_sub 2 fs))).
+  /\ (is_url kd url_ecdsa_priv -> ecdsa_params_strong (get_sub 2 (get_sub 2 fs)))
+  /\ (is_url kd url_xaes_gcm -> aes_size_ok (blen (get_len 3 fs))).
